@@ -30,7 +30,7 @@ META = dict(
                "PerfectElectricConductor.apply_post_E_update (symmetry wall)", "fdtd.update.pad_fields_with_symmetry_mirror", "interpolate_fields", "FieldDetector.update"],
     assumptions=["reals for floats", "materials constant along the symmetry axis (seeded transverse variation, concrete)", "initial reduced fields satisfy the wall condition on the plane row (tangential E = 0, normal H = 0)",
                  "compared cells: all except cells 0..T of the mirrored half (the light cone of the far wall of the discarded half after T steps); n >= T+2 so that part of the mirrored half is compared"],
-    outside="magnetic planes (+1), several simultaneous symmetry axes, steps beyond the light cone (T > n-1), sources",
+    outside="magnetic planes (+1), three simultaneous symmetry axes, steps beyond the light cone (T > n-1), sources",
     bounds=dict(quick=dict(n=4, T=2), thorough=dict(n=5, T=3)),
 )
 
@@ -41,27 +41,35 @@ def cases(tier, seed):
     for ax in range(3):
         for tb in (("periodic", "pmc") if tier != "quick" else (("periodic", "pmc", "periodic")[ax],)):
             out.append(dict(name=f"axis{ax}-{tb}", axis=ax, n=n, T=T, transverse=tb))
+    # two electric planes at once (quarter domain): the halo edge shared by both planes is a double mirror (H_z co-location)
+    out.append(dict(name="axes01-pmc", axis=0, axis2=1, n=n, T=T, transverse="pmc"))
+    if tier != "quick":
+        out.append(dict(name="axes12-periodic", axis=1, axis2=2, n=n, T=T, transverse="periodic"))
     return out
 
 
 def run_case(c, case):
     ax, n, T = case["axis"], case["n"], case["T"]
+    axes = [ax] + ([case["axis2"]] if case.get("axis2") is not None else [])
     rng = np.random.default_rng(c.seed + 13)
     shape = [2, 3, 2]
-    shape[ax] = 2 * n
+    for a in axes:
+        shape[a] = 2 * n
     shape = tuple(shape)
     sym = [0, 0, 0]
-    sym[ax] = -1
+    for a in axes:
+        sym[a] = -1
     sym = tuple(sym)
     faces = {}
     for a in range(3):
-        k = "pec" if a == ax else case["transverse"]
+        k = "pec" if a in axes else case["transverse"]
         faces[f"min_{'xyz'[a]}"] = k
         faces[f"max_{'xyz'[a]}"] = k
     # a co-located detector straddling the plane symmetrically (full domain) = touching the plane (reduced domain)
     lo = [0, 0, 0]
     sh = list(shape)
-    lo[ax], sh[ax] = n - 2, 4
+    for a in axes:
+        lo[a], sh[a] = n - 2, 4
     det = lambda: [box_detector(fdtdx.FieldDetector, "det", tuple(lo), tuple(sh), dtype=jnp.float64, exact_interpolation=True)]
     SF = build_scene(shape, faces, steps=T, thickness=1, extra_objects=det())
     SR = build_scene(shape, faces, steps=T, thickness=1, extra_objects=det(), symmetry=sym)
@@ -69,26 +77,29 @@ def run_case(c, case):
     c.bounds.update(shape=list(shape), axis=ax, T=T)
     rsh = SR["arrays"].fields.E.shape
     fsh = SF["arrays"].fields.E.shape
-    if rsh[ax + 1] != n or fsh[ax + 1] != 2 * n:
+    if any(rsh[a + 1] != n or fsh[a + 1] != 2 * n for a in axes):
         raise Inconclusive(f"unexpected reduced/full shapes {rsh} {fsh}")
     # transverse material variation, constant along the symmetry axis
     ie_r = np.asarray(SR["arrays"].inv_permittivities)
     tshape = list(ie_r.shape)
-    tshape[ax + 1] = 1
+    for a in axes:
+        tshape[a + 1] = 1
     tv = np.round(rng.uniform(0.4, 1.0, size=tshape), 3)
     ie_red = np.broadcast_to(tv, ie_r.shape).copy()
     fshape = list(ie_r.shape)
-    fshape[ax + 1] = 2 * n
+    for a in axes:
+        fshape[a + 1] = 2 * n
     ie_full = np.broadcast_to(tv, fshape).copy()
 
     Er, Hr = jx.symarr("E", rsh), jx.symarr("H", rsh)
-    for comp in range(3):
-        idx = [comp, slice(None), slice(None), slice(None)]
-        idx[ax + 1] = 0
-        if comp != ax:
-            Er[tuple(idx)] = 0
-        else:
-            Hr[tuple(idx)] = 0
+    for a in axes:
+        for comp in range(3):
+            idx = [comp, slice(None), slice(None), slice(None)]
+            idx[a + 1] = 0
+            if comp != a:
+                Er[tuple(idx)] = 0
+            else:
+                Hr[tuple(idx)] = 0
     c.symvars += int(sum(sc.is_symbolic_scalar(v) for v in list(Er.reshape(-1)) + list(Hr.reshape(-1))))
 
     def mk(S, ie):
@@ -130,13 +141,15 @@ def run_case(c, case):
     # the full domain is not mirror symmetric about its centre plane at its own far (min) wall: the wall zeroes tangential E
     # at node 0, which has no mirror partner.  That asymmetry travels one cell per step: after T steps cells 0..T of the
     # mirrored half can differ.  Everything beyond that light cone must agree.
-    keep[ax + 1] = slice(T + 1, None)
+    for a in axes:
+        keep[a + 1] = slice(T + 1, None)
     keep = tuple(keep)
     # detector: reduced record covers the kept half of the straddling box; compare with the upper half of the full record
     dfull = jx.lift(Df)
     dred = jx.lift(Dr)
     half = [slice(None)] * dfull.ndim
-    half[ax + 2] = slice(dfull.shape[ax + 2] - dred.shape[ax + 2], None)
+    for a in axes:
+        half[a + 2] = slice(dfull.shape[a + 2] - dred.shape[a + 2], None)
     half = tuple(half)
 
     def replay(m):
@@ -149,7 +162,7 @@ def run_case(c, case):
         worst = max(w1, w2, w3) / sc_
         return worst > 1e-7, dict(worst_rel_diff=worst, E=w1, H=w2, detector=w3)
 
-    kk = f"axis{ax}"
+    kk = "axes" + "".join(map(str, axes))
     c.prove_eq("unfold(reduced E) == full E (away from the far boundary)", jx.lift(Eu)[keep], jx.lift(Ef)[keep], [], replay, key=f"symmetry-reduction:{kk}:E", roundoff=1e-9)
     c.prove_eq("unfold(reduced H) == full H (away from the far boundary)", jx.lift(Hu)[keep], jx.lift(Hf)[keep], [], replay, key=f"symmetry-reduction:{kk}:H", roundoff=1e-9)
     c.prove_eq("co-located detector record: reduced == kept half of full", dred, dfull[half], [], replay, key=f"symmetry-reduction:{kk}:detector", roundoff=1e-9)
